@@ -126,6 +126,10 @@ def token(tok, pos, cfg):
         return host, dict(kind='req', fc=15, address=1, count=3, byte_count=1, bits=[True, False, True])
     if tok == 'I':
         return host, dict(kind='req', fc=0x2B, read_code=1, object_id=0)
+    if tok == 'WMAX':
+        # the longest request there is (123 registers: an ADU of 260 bytes on TCP/UDP); outside this store's tables, so
+        # the answer is exception 02 -- but it has to be an answer
+        return host, dict(kind='req', fc=16, address=1, count=123, byte_count=246, registers=[0x0100 + j for j in range(123)])
     if tok == 'M1':
         return host, dict(kind='req', fc=16, address=5, count=1, byte_count=2, registers=[0x0D00 + pos])
     if tok == 'M3':
